@@ -9,8 +9,10 @@ package harness
 
 import (
 	"fmt"
+	"runtime"
 	"sort"
 	"strings"
+	"sync/atomic"
 	"testing"
 	"time"
 
@@ -76,7 +78,7 @@ func genC07(rt *rapid.T) c07Case {
 	if c.Rev == 4 {
 		n := rapid.IntRange(1, 4).Draw(rt, "nReacts")
 		for i := 0; i < n; i++ {
-			k := rapid.SampledFrom([]string{"pong", "pong", "pong", "dup", "never", "atDeadlineRace"}).Draw(rt, "react")
+			k := rapid.SampledFrom([]string{"pong", "pong", "pong", "dup", "never", "atDeadlineRace", "inDrain"}).Draw(rt, "react")
 			r := hbReact{Kind: k}
 			if k == "pong" || k == "dup" {
 				switch rapid.IntRange(0, 5).Draw(rt, "delayK") {
@@ -241,6 +243,48 @@ func runC07(c c07Case) (fail string, stats map[string]bool) {
 	t0 := sr.ConnAt // the session opened at this instant
 	now := func() time.Duration { return w.now() }
 	cl.keepPolling()
+	// reaction "inDrain": a fast client and a slow application listener: the client's pong is back, and has been
+	// processed by the server, before the session's 'drain' listener for the ping's hand-off returns (the timer
+	// goroutine that sent the ping is still inside Send)
+	var pongInDrain, pongInDrainDone atomic.Bool
+	heartbeats := func() int {
+		w.mu.Lock()
+		defer w.mu.Unlock()
+		n := 0
+		for _, e := range sr.Events {
+			if e.Name == "heartbeat" {
+				n++
+			}
+		}
+		return n
+	}
+	pingsSeen := func() int {
+		n := 0
+		for _, p := range s.recv() {
+			if p.Type == tPing {
+				n++
+			}
+		}
+		return n
+	}
+	sr.Sock.On("drain", func(...any) {
+		if !pongInDrain.CompareAndSwap(true, false) {
+			return
+		}
+		hb0, p0, sent := heartbeats(), pingsSeen(), false
+		for k := 0; k < 300000; k++ {
+			runtime.Gosched()
+			if !sent {
+				if pingsSeen() > p0 {
+					cl.send(ctl(tPong))
+					sent = true
+				}
+			} else if heartbeats() > hb0 {
+				pongInDrainDone.Store(true)
+				return
+			}
+		}
+	})
 
 	// ---- reference timeline ----
 	var expPings []time.Duration
@@ -324,10 +368,15 @@ func runC07(c c07Case) (fail string, stats map[string]bool) {
 				cl.send(ctl(tPong))
 			}()
 		}
+		if nextPing >= 0 && nextPing == tn && !vanished && s.pc == nil && c.Reacts[pingIdx%len(c.Reacts)].Kind == "inDrain" {
+			pongInDrainDone.Store(false)
+			pongInDrain.Store(true)
+		}
 		if d := tn - now(); d > 0 {
 			time.Sleep(d)
 		}
 		Settle()
+		pongInDrain.Store(false)
 		cl.keepPolling()
 		// 1. server-side timers due at this instant
 		if deadline >= 0 && deadline == tn {
@@ -372,6 +421,16 @@ func runC07(c c07Case) (fail string, stats map[string]bool) {
 			if vanished {
 				r = hbReact{Kind: "never"}
 				stats["ping-to-a-vanished-peer"] = true
+			}
+			if r.Kind == "inDrain" {
+				if pongInDrainDone.Load() {
+					// answered, and the answer accepted, at the very instant of the ping
+					stats["pong-processed-before-the-ping's-drain-listener-returns"] = true
+					deadline, nextPing = -1, tn+c.I
+					sort.SliceStable(pend, func(a, b int) bool { return pend[a].at < pend[b].at })
+					continue
+				}
+				r = hbReact{Kind: "pong"}
 			}
 			switch r.Kind {
 			case "pong", "dup":
@@ -592,7 +651,7 @@ func TestC07Heartbeat(t *testing.T) {
 		sort.Strings(cl)
 		cl = append(cl, "carrier."+c.Carrier, fmt.Sprintf("rev%d", c.Rev))
 		if c.Chunk > 0 {
-			cl = append(cl, "heartbeats-in-data-requests-without-declared-length", "upgrade-candidate-announcing-the-other-revision")
+			cl = append(cl, "heartbeats-in-data-requests-without-declared-length", "upgrade-candidate-announcing-the-other-revision", "pong-processed-before-the-ping's-drain-listener-returns")
 		}
 		nt := (stats[">=2-rounds"] && stats["within-1ms-of-deadline"]) || stats["wrong-direction"] || stats["unsolicited-pong"] || stats["duplicate-pong"] || stats["pong-at-deadline-race"]
 		col.Case(c.String(), nt, map[string]any{"case": c.String(), "classes": strings.Join(cl, " ")}, cl...)
@@ -624,5 +683,26 @@ func TestC07VanishedPeerFinding(t *testing.T) {
 		}
 		col.Case(c.String(), true, map[string]any{"case": c.String(), "result": clipStr(fail, 300)}, "peer-vanished")
 		demoFinding(t, col, "C07", sigVanishedPeer, fail != "", car+": "+clipStr(fail, 400))
+	}
+}
+
+const sigPongBeforeDeadlineArmed = "deadline-armed-after-the-pong-of-its-ping-was-processed"
+
+// TestC07PongBeforeDeadlineFinding: deterministic demonstration: a fast client's pong is processed while the
+// session's drain listener for the ping's hand-off is still running, i.e. before the ping callback arms the deadline.
+func TestC07PongBeforeDeadlineFinding(t *testing.T) {
+	col := NewCollector("TestC07PongBeforeDeadlineFinding", "deterministic: websocket / webtransport session, revision 4, (interval, timeout) in {(100ms, 60ms), (651ms, 651ms), (25s, 20s)}; the client answers every ping at once and the answer is processed before the application's drain listener for the ping returns; oracle of TestC07Heartbeat: pings one interval after each accepted pong, the session is never closed. every case is non-trivial").Use(t)
+	for _, car := range []string{"websocket", "webtransport"} {
+		for _, it := range [][2]time.Duration{{100 * time.Millisecond, 60 * time.Millisecond}, {651 * time.Millisecond, 651 * time.Millisecond}, {25 * time.Second, 20 * time.Second}} {
+			c := c07Case{I: it[0], T: it[1], Carrier: car, Rev: 4, Reacts: []hbReact{{Kind: "inDrain"}}, Rounds: 3}
+			var fail string
+			res := bubble(t, func() { fail, _ = runC07(c) })
+			res.rethrow()
+			if fail == "" && res.Leak != "" {
+				fail = "bubble: " + clipStr(res.Leak, 300)
+			}
+			col.Case(c.String(), true, map[string]any{"case": c.String(), "result": clipStr(fail, 300)}, "pong-processed-before-the-ping's-drain-listener-returns")
+			demoFinding(t, col, "C07", sigPongBeforeDeadlineArmed, fail != "", fmt.Sprintf("%v: %s", c, clipStr(fail, 400)))
+		}
 	}
 }
